@@ -5,16 +5,17 @@
 (*  sender s   : outgoing queue sq, message-id counter sid (modulo IDSPACE; *)
 (*               2^32 in the code), offset coff inside the Message being    *)
 (*               fragmented, packet under construction opkt                 *)
-(*               (DoOutputImplementation, lines 129-194)                    *)
+(*               (DoOutputImplementation)                                   *)
 (*  fragment   : [id, off, len, tot] + len data bytes; H = header size      *)
 (*  receiver   : per SOURCE ADDRESS a ReceiveState {id, off, buffer} with   *)
-(*               the acceptance test of DoInputImplementation (57-121)      *)
+(*               the acceptance test of DoInputImplementation               *)
 (*  network    : module Net                                                 *)
 (*                                                                          *)
 (* One action per public call: Send = AddOutgoingMessage, Out = DoOutput    *)
 (* (three ways the call can go), Deliver = DoInput with one packet waiting  *)
-(* (which packet = the network's fault schedule).  Sizes are in units; the harness maps a    *)
-(* unit to 24 / H bytes so that H units are the real 24-byte header.        *)
+(* (which packet = the network's fault schedule).  Sizes are in units; the  *)
+(* harness maps a unit to 24 / H bytes so that H units are the real 24-byte *)
+(* fragment header.                                                         *)
 (* The property (TunAbs) is at the bottom.                                  *)
 (***************************************************************************)
 EXTENDS Net, TLC, Json
